@@ -120,6 +120,17 @@ pub fn twin_signature_table(seed: u64, budget: u64) -> i32 {
 /// (basis, source) pairs with the shapes the properties name
 pub fn pair(kind: u32, bs: usize, seed: u64) -> (Vec<u8>, Vec<u8>) {
     let mut r = Rng(seed ^ 0x9A12);
+    if kind >= 1000 && kind < 100000 {
+        // long runs of window slides without a match: N fresh bytes inserted in the middle of a block, so that the next real
+        // match is reached only after bs + N consecutive slides (N sweeps the residues of any periodic bookkeeping of the
+        // rolling checksum); the blocks after the insert must all be found again
+        let n = (kind as usize - 1000) * 251 + 1;
+        let basis = gen(0, 4 * bs + 7, seed);
+        let mut src = basis[..bs + bs / 2].to_vec();
+        src.extend((0..n).map(|_| r.next() as u8));
+        src.extend_from_slice(&basis[bs + bs / 2..]);
+        return (basis, src);
+    }
     let nb = 2 + r.below(5) as usize;
     let basis_kind = match kind % 4 { 0 => 0, 1 => 1, 2 => 3, _ => 4 };
     let mut basis = gen(basis_kind, nb * bs + r.below(bs as u64) as usize, seed);
@@ -204,6 +215,21 @@ pub fn search_pairs(greedy_only: bool, seed: u64, budget: u64, as_twin: bool) ->
                 if as_twin { println!("CASES {cases}"); }
                 return 1;
             }
+        }
+        // long slide runs (see `pair`, kinds >= 1000): 44 insert lengths up to ~11 KB at a small and a mid block size; every
+        // block size in the thorough tier
+        if round == 48 || (round == 96 && budget > 30) {
+            let sizes: &[usize] = if round == 48 { &[512, 4096] } else { &BLOCK_SIZES };
+            for &bs in sizes { for k in 0..44u32 {
+                let kind = 1000 + k;
+                let (basis, src) = pair(kind, bs, seed + u64::from(k));
+                cases += 1;
+                if let Some(what) = check_pair(&basis, &src, bs, greedy_only) {
+                    println!("WITNESS {{\"kind\":\"pair\",\"greedy_only\":{},\"round\":{kind},\"bs\":{bs},\"seed\":{},\"what\":\"{} (basis {} bytes; source = the basis with {} fresh bytes inserted in the middle of its second block, block size {bs})\"}}", greedy_only as u8, seed + u64::from(k), what.replace('"', "'"), basis.len(), src.len() - basis.len());
+                    if as_twin { println!("CASES {cases}"); }
+                    return 1;
+                }
+            } }
         }
         if round >= 64 && t0.elapsed() > Duration::from_secs(budget) { break; }
         if t0.elapsed() > Duration::from_secs(budget * 3 + 5) { break; }
